@@ -75,6 +75,10 @@ fn respell_rule(text: &str, sp: u64, lex: &Lex) -> String {
             if !in_matrix && c == '<' && rng.chance(1, 2) && t.contains('>') && ti > 0 { res.push('⟨'); k += 1; continue; }
             res.push(c); k += 1;
         }
+        // the inbuilt aliases that may be used inside a rule (doc: g ? ! ǝ φ)
+        if !res.contains('[') && !res.contains(']') {
+            for (ipa, al) in [('ɡ', 'g'), ('ʔ', '?'), ('ǃ', '!'), ('ə', 'ǝ'), ('ɸ', 'φ')] { if res.contains(ipa) && rng.chance(1, 2) { res = res.replace(ipa, &al.to_string()); } }
+        }
         // a structure opened with ⟨ must be closed with ⟩
         if res.contains('⟨') { if let Some(p) = res.rfind('>') { res.replace_range(p..p + 1, "⟩"); } }
         // variable numbers: `=1`, a bare `1`
